@@ -2896,9 +2896,10 @@ client_tcp_read_packet_cb(struct bufferevent *bev, void *ctx)
 		reply_parse(server->base, msg, msg_len);
 		mm_free(msg);
 		msg = NULL;
-		if (server->connection == NULL) {
+		if (server->connection != conn) {
 			/* Some errors occurred in reply_parse, and TCP connection has been
-			 * close. Stop reading from it. */
+			 * closed (and maybe a new one opened for the requests that
+			 * were reissued). Stop reading from it. */
 			EVDNS_UNLOCK(server->base);
 			return;
 		}
